@@ -165,3 +165,16 @@ method("_cancel_send_messages", "(%s, d: Ref_Deferred) -> None" % SELF, props=["
            "removed-from-count-accounting[C19]": "self._waitingMsgCount == old(self._waitingMsgCount) - len(req.messages)",
            "removed-from-queue[C19]": "len(self._batch_reqs) == len(old(self._batch_reqs)) - 1"}},
        ensures={"caller-detached[C19]": "called(d)"})
+
+
+# ---- C01: the classification of a produce result (outer body of _handle_send_response) ------------------------------
+method("_handle_send_response",
+       "(%s, result: Any, payloadsByTopicPart: Dict[TopicAndPartition, ProduceRequest], "
+       "deferredsByTopicPart: Dict[TopicAndPartition, List[Ref_Deferred]]) -> Optional[Ref_Deferred]" % SELF,
+       props=["C01"], poly=["result"], exceptions_as_bare_failures=True,
+       type_instances={"responses": {"result": "List[ProduceResponse]"}, "no-result": {"result": "None"}},
+       locals={"failed_payloads": "List[Tuple[ProduceRequest, Ref_Failure]]"},
+       raises={"KeyError": "True"},
+       loops={"for#1": dict(index="i", inv=["True"])},
+       notes="the Failure-typed result (FailedPayloadsError carrying responses and failed payloads in its args) is outside "
+             "the subset; explored by producer_e2e")
